@@ -479,6 +479,60 @@ func TestC03Engine(t *testing.T) {
 	})
 }
 
+// TestC06Engine: the emission rules that belong to the engines themselves, for both of them, with a scripted
+// driver (so that a destination reply can be attributed to an earlier TTL than the one being probed, which
+// the SYN driver never does): TTLs are probed in order, each once; consecutive probes are at least the send
+// delay apart; after a destination reply has been handed to the engine at most one further probe leaves.
+func TestC06Engine(t *testing.T) {
+	rec := NewRecorder("C06", "C06Engine", "rapid: both engines driven by a scripted driver (destination replies for any probed TTL at generated instants, also late ones that arrive while a later TTL is being probed); oracle over the driver's send log: TTLs first..k in order, each once, consecutive sends >= the send delay apart, at most one send after the first destination reply was returned to the engine; non-trivial = a destination reply was returned while a later TTL was already probed")
+	RunProp(t, rec, func(rt *rapid.T) *EngineCase { return genEngineCase(rt, "") }, func(t *testing.T, c *EngineCase, rec *Recorder) []Diff {
+		o := runEngine(t, c)
+		var ds []Diff
+		add := func(sig, f string, a ...any) { ds = append(ds, Diff{"C06", sig, fmt.Sprintf(f, a...)}) }
+		if o.panicked != "" || o.drv == nil {
+			rec.Case(scenarioKey(c), false, nil, "other:crash")
+			return []Diff{{"C09", "crash", o.panicked}}
+		}
+		for i, s := range o.drv.sends {
+			if s.d.TTL != c.MinTTL+i {
+				add("ttl-order", "send #%d has TTL %d, expected %d", i, s.d.TTL, c.MinTTL+i)
+				break
+			}
+			if i > 0 && s.at-o.drv.sends[i-1].at < time.Duration(c.DelayNs) {
+				add("pacing", "probes TTL %d and %d only %v apart (send delay %v)", o.drv.sends[i-1].d.TTL, s.d.TTL, s.at-o.drv.sends[i-1].at, time.Duration(c.DelayNs))
+				break
+			}
+		}
+		if len(o.drv.sends) > c.MaxTTL-c.MinTTL+1 {
+			add("too-many", "%d probes for the range %d..%d", len(o.drv.sends), c.MinTTL, c.MaxTTL)
+		}
+		var destAt time.Duration = -1
+		destTTL, late := 0, false
+		for _, r := range o.drv.returned {
+			if r.d.Noise == "" && r.d.Dest {
+				destAt, destTTL = r.at, r.d.TTL
+				break
+			}
+		}
+		if destAt >= 0 {
+			after := 0
+			for _, s := range o.drv.sends {
+				if s.at > destAt {
+					after++
+				}
+				if s.at <= destAt && s.d.TTL > destTTL {
+					late = true
+				}
+			}
+			if after > 1 {
+				add("send-after-dest", "%s engine: %d probes left after the destination reply (for TTL %d) was returned to the engine at %v", c.Engine, after, destTTL, destAt)
+			}
+		}
+		rec.Case(scenarioKey(c), late, c, "engine:"+c.Engine)
+		return ds
+	})
+}
+
 // TestC03OutOfRange: the engine's own validation of what a driver hands back. A reply attributed to a TTL
 // outside the probed range (below the first TTL, 0, above the last TTL) must never bend the shape of a
 // successful run: either the run fails, or its hop list is still non-empty, consecutive from the first TTL
